@@ -8,8 +8,8 @@ import (
 func init() {
 	register("C09", "every output format faithfully encodes the computed result", func(p *core.Program, r *core.Report) {
 		r.Explanation = "E8 formatter agreement - structural necessary conditions that every format encodes the computed result, decided for all results at once: " +
-			"(C09-proj) the accessors of a computed row are called only from the shared projection functions and every formatter entry reaches them (who-may-format); " +
-			"(C09-nodrop) in the formatting layer (all functions reachable from the 9 formatter entries and the two ToString functions) every early success exit, continue and break is in a reviewed table - a new one can drop rows or parts of a row; " +
+			"(C09-proj) in the formatting layer (all functions reachable from the 9 formatter entries and the two ToString functions, outside package common) a row's protocols-to-ports map is only handed on - never ranged over, indexed or measured, decided by the operand's type - and every formatter entry reaches the shared projections (who-may-format); " +
+			"(C09-ret) every successful return of a rendering function is computed from, or taken where the path condition pins, each input that another return of the function renders (data flow with accumulating assignments and out-parameter sinks threaded along the paths; three domain pins keyed by function + path atom with positional parameters); (C09-nodrop) every continue and break of the layer is in a reviewed table - a new one can drop rows; " +
 			"(C09-emit) every loop over rows emits on every path through its body; " +
 			"(C09-orient) header and row builders of the csv and md tables order the columns alike in both orientations and are called with the same flag; md sub-sections pair rows, flag and header; exposure entries are oriented by direction. " +
 			"(C09-sel) a function that renders a label selector either runs the full selector writer on the path to its return or chooses an abbreviated text only where the path condition pins both matchLabels and matchExpressions. " +
